@@ -250,6 +250,15 @@ inline void distinct(uint64_t h) {
 inline void distinct_enum(uint64_t n = 1) { dist().enumerated += n; }
 inline void trivial(uint64_t n = 1) { dist().trivial += n; }
 
+// order-independent digest of per-case outcomes, per stream; the driver sums
+// over shards and compares runs that must behave identically (heap-fill sweep,
+// build configurations)
+inline std::map<std::string, uint64_t>& digests() {
+  static std::map<std::string, uint64_t> m;
+  return m;
+}
+inline void outcome(uint64_t h) { digests()[status().stream] += mix64(h); }
+
 // ---------------------------------------------------------------- violations
 struct VioState {
   std::map<std::string, uint64_t> per_key;
@@ -386,6 +395,12 @@ inline void write_summary(const std::vector<Stream>& streams, const std::vector<
   first = true;
   for (auto& kv : vio().per_key) {
     fprintf(f, "%s\"%s\":%" PRIu64, first ? "" : ",", json_escape(kv.first).c_str(), kv.second);
+    first = false;
+  }
+  fprintf(f, "},\"digests\":{");
+  first = true;
+  for (auto& kv : digests()) {
+    fprintf(f, "%s\"%s\":\"%016" PRIx64 "\"", first ? "" : ",", json_escape(kv.first).c_str(), kv.second);
     first = false;
   }
   fprintf(f, "},\"samples\":{");
